@@ -607,7 +607,8 @@ impl Story {
             .get_current_element()
             .current_pointer
             .clone();
-        pointer.index += 1;
+        // (an index taken from a hand-made save may already be the largest one)
+        pointer.index = pointer.index.saturating_add(1);
 
         let mut container = pointer.container.as_ref().unwrap().clone();
 
